@@ -715,3 +715,41 @@ Example ex2_runs : wt_prog ex2_tys ex2_prog = true /\
     valid {| v_tys := ex2_tys; v_main := g; v_subs := [] |} = true /\ length (g_nodes g) = 13%nat /\
     existsb (fun e => negb (optN_eqb (parent_of g (e_src e)) (parent_of g (e_dst e)))) (g_edges g) = true.
 Proof. split; [vm_compute; reflexivity|]. eexists. split; [vm_compute; reflexivity|]. repeat split; vm_compute; reflexivity. Qed.
+
+(* the typed invariants at the entry of a nested region (the bookkeeping of the SNested case, for reuse) *)
+Lemma nested_Bpre tys st b e G args ws ts new st3 st4 :
+  Bpre tys st b e G -> get_wires e args = Ok ws -> wire_tys G args = Some ts ->
+  s_nodes st3 = s_nodes st ++ [mk (DFG ts []) (b_parent b); mk (Input ts) (s_len st); mk (Output []) (s_len st)] ->
+  WNew st3 (s_len st) 0 ws ts new -> s_nodes st4 = s_nodes st3 -> s_links st4 = s_links st ++ new ->
+  Bpre tys st4 {| b_parent := s_len st; b_in := s_len st + 1; b_out := s_len st + 2 |} e G /\
+  nthN (s_nodes st4) (s_len st) = Some (mk (DFG ts []) (b_parent b)).
+Proof.
+  intros [I A O R Nn SK EG LI NO] Gw WT En3 HW En4 El4.
+  destruct (nested_entry _ _ _ _ _ _ _ _ I A O R (get_wires_pos _ _ _ _ R Gw) En3 HW En4 El4) as (I4 & A4 & O4 & R4 & L4).
+  set (d := s_len st) in *.
+  assert (GR4 : Grow (s_nodes st) (s_nodes st4)) by (rewrite En4, En3; apply Grow_app).
+  assert (Hd : nthN (s_nodes st4) d = Some (mk (DFG ts []) (b_parent b))) by (rewrite En4, En3; apply nthN_len).
+  split; [|exact Hd]. constructor; auto.
+  - intros w p Hin. cbn [b_parent]. pose proof (proj1 R _ _ Hin). fold d in H. lia.
+  - eapply StmtsOK_grow; eauto.
+  - rewrite <- EG. apply G_of_ext. intros w p Hin. rewrite En4, En3. apply type_at_app. apply (proj1 R _ _ Hin).
+  - unfold LinkInv. rewrite El4, forallb_app. apply andb_true_iff. split; [eapply LinkInv_grow; eauto|].
+    eapply WNew_link_ok; [exact HW| | | |].
+    + rewrite <- En4. exact (proj1 I4).
+    + rewrite <- En4. exact (proj1 A4).
+    + rewrite <- En4. apply Grow_refl.
+    + exists (mk (DFG ts []) (b_parent b)). split; [exact Hd|]. intros j t Hj. now rewrite N.add_0_l.
+  - unfold NodesOK. rewrite En4, En3, forallb_app. apply andb_true_iff. split; [exact NO|reflexivity].
+Qed.
+
+(* the wire types the checker reads are the ones _wire_up records *)
+Lemma wired_types tys st b e G args ws ts_s st1 ext node i ts new :
+  Bpre tys st b e G -> get_wires e args = Ok ws -> wire_tys G args = Some ts_s ->
+  s_nodes st1 = s_nodes st ++ ext -> WNew st1 node i ws ts new -> ts = ts_s.
+Proof.
+  intros [I A O R Nn SK EG LI NO] Gw WT En1 HW.
+  eapply (types_agree (s_nodes st) (s_nodes st1) ws).
+  - eapply wire_tys_types; eauto. now rewrite EG.
+  - eapply WNew_types2; eauto.
+  - intros p Hp. rewrite En1. apply type_at_app. apply (get_wires_pos _ _ _ _ R Gw _ Hp).
+Qed.
